@@ -21,4 +21,15 @@ PROPS = {
                      "buffer sizes stay below usize::MAX"],
         explanation="Theorems pull_complete, pull_sound, pull_none_iff, pull_none_intact, stream_prefix, stream_exact(_from) hold for every frame list, chunking and push/pull schedule of the model Tcp.pull/Tcp.run; the correspondence run executes the same schedules on the real TcpBuffer and compares every pull result exactly.",
     ),
+    "C19": dict(
+        title="Message type and transaction id fields are encoded bijectively per the RFC",
+        modules=["StunVerif.Props.C19"],
+        families={"quick": [("mtype", 300, 4)], "thorough": [("mtype", 50000, 16)]},
+        nontrivial=lambda tag: "notstun" not in tag,
+        rule="EXHAUSTIVE through the real code in both tiers: all 65536 two-byte inputs of MessageType::from_bytes and all 4x4096 (class, method) pairs of from_class_method/class/method/to_bytes/write_into; transaction ids: boundary patterns (0, 2^96-1, 2^96, 2^128-1, every single bit set/cleared) plus random u128 through From<u128>, build, MessageHeader and Message::transaction_id; TransactionId::generate 10^4 (thorough 2*10^5) times; non-trivial = accepted type / every fcm and tid case; distinct = distinct case line",
+        trusted=COMMON_TRUST,
+        assumptions=["Rust u16/u128 arithmetic is modelled by Nat arithmetic with explicit masks (the translator inserts % 2^w after every shift-left and cast)",
+                     "generated ids: the theorem covers conversion from any u128; that generate() goes through that conversion is checked by the translator-independent run of 10^4 calls"],
+        explanation="Theorems rfc_layout, decode_encode, refuse_iff, unique, decode_spec, injective, tid_mask, tid_fits, constants are stated about Gen.* -- the code's own expressions, re-translated from /repo on this run -- and are checked by kernel evaluation over the complete finite domains (4x4096, 65536, 16384 values; tid_mask for every natural number). The correspondence run pushes the same complete domains through the real code and compares with the RFC-level Spec.",
+    ),
 }
